@@ -440,3 +440,110 @@ Lemma check_order_gaps :
   check_order [dated 2020; invalid; dated 2022] None = Some true /\
   table_unqualified_strict [dated 2020; invalid; dated 2022] = false.
 Proof. vm_compute. repeat split. Qed.
+
+(* ---------------------------------------------------------------------------------------- *)
+(* CategoryDef.RateDef: which rate a key resolves to (after the repair: exact key, else the  *)
+(* FIRST `+` component)                                                                      *)
+(* ---------------------------------------------------------------------------------------- *)
+
+Lemma split_plus_2_aux_hd l : forall cur, hd [] (split_plus_2_aux l cur) = hd [] (split_plus_aux l cur).
+Proof.
+  induction l as [|b r IH]; intro cur; cbn [split_plus_2_aux split_plus_aux]; [reflexivity|].
+  destruct (bZ b =? 43); [reflexivity|apply IH].
+Qed.
+
+Lemma split_plus_2_aux_nonempty l : forall cur, split_plus_2_aux l cur <> [].
+Proof.
+  induction l as [|b r IH]; intro cur; cbn [split_plus_2_aux]; [discriminate|].
+  destruct (bZ b =? 43); [discriminate|apply IH].
+Qed.
+
+Lemma split_plus_aux_nonempty l : forall cur, split_plus_aux l cur <> [].
+Proof.
+  induction l as [|b r IH]; intro cur; cbn [split_plus_aux]; [discriminate|].
+  destruct (bZ b =? 43); [discriminate|apply IH].
+Qed.
+
+(* Key.HasPrefix(ke) <=> the first component is ke *)
+Lemma key_has_prefix_iff k ke : key_has_prefix k ke = true <-> first_part k = ke.
+Proof.
+  unfold key_has_prefix, first_part, split_plus, split_plus_2.
+  rewrite <- (split_plus_2_aux_hd k []).
+  pose proof (split_plus_2_aux_nonempty k []) as Hne.
+  destruct (split_plus_2_aux k []) as [|p rest]; [congruence|]. cbn [hd]. apply eqb_bytes_eq.
+Qed.
+
+Lemma first_part_in_parts k : In (first_part k) (split_plus k).
+Proof.
+  unfold first_part, split_plus. pose proof (split_plus_aux_nonempty k []) as Hne.
+  destruct (split_plus_aux k []); [congruence|left; reflexivity].
+Qed.
+
+(* the repaired test is stronger than the shipped one *)
+Lemma key_has_prefix_has k ke : key_has_prefix k ke = true -> key_has k ke = true.
+Proof.
+  intro H. apply key_has_prefix_iff in H. unfold key_has. apply existsb_exists.
+  exists (first_part k). split; [apply first_part_in_parts|apply eqb_bytes_eq; assumption].
+Qed.
+
+(* an answer is a rate of the category whose key is the given key or its first component *)
+Lemma rate_def_some c key r :
+  rate_def c key = Some r -> In r (cat_rates c) /\ (rt_key r = key \/ first_part key = rt_key r).
+Proof.
+  unfold rate_def, rate_def_with. destruct (find (fun r0 => eqb_bytes (rt_key r0) key) (cat_rates c)) as [r0|] eqn:E.
+  - intro H; injection H as <-. apply find_some in E as [Hin He]. split; [assumption|left; apply eqb_bytes_eq; assumption].
+  - intro H. apply find_some in H as [Hin He]. split; [assumption|right; apply key_has_prefix_iff; assumption].
+Qed.
+
+(* no answer exactly when no rate of the category has the key, or its first component, as its key *)
+Lemma rate_def_none_iff c key :
+  rate_def c key = None <->
+  (forall r, In r (cat_rates c) -> rt_key r <> key /\ first_part key <> rt_key r).
+Proof.
+  unfold rate_def, rate_def_with. split.
+  - destruct (find (fun r0 => eqb_bytes (rt_key r0) key) (cat_rates c)) as [r0|] eqn:E; [discriminate|].
+    intros H r Hin. split.
+    + intro Hk. pose proof (find_none _ _ E r Hin) as Hn. cbn in Hn. rewrite (proj2 (eqb_bytes_eq _ _) Hk) in Hn. discriminate.
+    + intro Hk. pose proof (find_none _ _ H r Hin) as Hn. cbn in Hn. rewrite (proj2 (key_has_prefix_iff _ _) Hk) in Hn. discriminate.
+  - intro H.
+    destruct (find (fun r0 => eqb_bytes (rt_key r0) key) (cat_rates c)) as [r0|] eqn:E.
+    + apply find_some in E as [Hin He]. apply eqb_bytes_eq in He. destruct (H r0 Hin) as [Hk _]. contradiction.
+    + destruct (find (fun r0 => key_has_prefix key (rt_key r0)) (cat_rates c)) as [r1|] eqn:E1; [|reflexivity].
+      apply find_some in E1 as [Hin He]. apply key_has_prefix_iff in He. destruct (H r1 Hin) as [_ Hk]. contradiction.
+Qed.
+
+(* a key with a defined first component always resolves (free suffixes: `exempt+reverse-charge`) *)
+Lemma rate_def_extended_key c key r :
+  In r (cat_rates c) -> first_part key = rt_key r -> exists r', rate_def c key = Some r'.
+Proof.
+  intros Hin Hk. destruct (rate_def c key) as [r'|] eqn:E; [exists r'; reflexivity|].
+  destruct (proj1 (rate_def_none_iff c key) E r Hin) as [_ Hn]. contradiction.
+Qed.
+
+(* Combo.prepareRate refuses a key whose first component (and whole text) is not a rate of the category *)
+Lemma prepare_undefined_first_part test cat tags d c :
+  cb_rate c <> [] ->
+  (forall r, In r (cat_rates cat) -> rt_key r <> cb_rate c /\ first_part (cb_rate c) <> rt_key r) ->
+  prepare_rate_with test cat tags d c = inl ErrInvalidRate.
+Proof. intros H1 H2. apply prepare_unknown_rate; [assumption|]. apply rate_def_none_iff; assumption. Qed.
+
+(* the second loop as shipped before the repair (Key.Has: ANY component): `bogus+standard` resolved
+   to the standard rate although neither `bogus` nor `bogus+standard` is a rate of the category *)
+#[local] Open Scope bs_scope.
+
+Definition es_vat_like : category :=
+  mkCategory "VAT" false
+    [ mkRate "standard" false es_vat_standard [];
+      mkRate "exempt" true [] [];
+      mkRate "standard+eqs" false es_vat_standard [] ] [] [] [].
+
+Lemma rate_def_shipped_any_part_witness :
+  exists cat key r,
+    (forall r', In r' (cat_rates cat) -> rt_key r' <> key /\ first_part key <> rt_key r') /\
+    rate_def_shipped cat key = Some r /\ rt_key r = "standard" /\ first_part key = "bogus" /\
+    rate_def cat key = None.
+Proof.
+  exists es_vat_like, "bogus+standard", (mkRate "standard" false es_vat_standard []).
+  split; [|vm_compute; repeat split].
+  intros r' [H|[H|[H|[]]]]; subst r'; split; vm_compute; discriminate.
+Qed.
